@@ -304,6 +304,112 @@ func (c *cutCase) runReadData() error {
 	return c.checkReplies(rec)
 }
 
+// finalFrameOfMessage reports whether frame k is the final data frame of its message.
+func (c *cutCase) finalDataFrame(k int) bool {
+	return k < len(c.Frames) && !ref.IsControl(c.Frames[k].H.Op) && c.Frames[k].H.Fin
+}
+
+// runReadDataFiltered: the Text/Binary variants discard unwanted messages; a
+// stream that ends inside a discarded fragmented message must still be an error.
+func (c *cutCase) runReadDataFiltered(want ws.OpCode) error {
+	src := c.src()
+	rec := tx.NewRec()
+	rw := tx.RW{Reader: src, Writer: rec}
+	read := func() ([]byte, error) {
+		switch {
+		case c.State.ServerSide() && want == ws.OpText:
+			return wsutil.ReadClientText(rw)
+		case c.State.ServerSide():
+			return wsutil.ReadClientBinary(rw)
+		case want == ws.OpText:
+			return wsutil.ReadServerText(rw)
+		}
+		return wsutil.ReadServerBinary(rw)
+	}
+	for _, e := range c.complete() {
+		if e.Kind != "msg" || ws.OpCode(e.Op) != want {
+			continue
+		}
+		p, err := read()
+		if err != nil {
+			return fmt.Errorf("%s failed (%v) although %v is completely present", c.Entry, err, e)
+		}
+		if !bytes.Equal(p, e.Payload) {
+			return fmt.Errorf("%s returned %x, want %v", c.Entry, p, e)
+		}
+	}
+	_, err := read()
+	var ce wsutil.ClosedError
+	if errors.As(err, &ce) {
+		for i, f := range c.Frames {
+			if f.H.Op == ref.OpClose && c.end[i] <= c.Off {
+				return c.checkReplies(rec)
+			}
+		}
+		return fmt.Errorf("%s reported %v although no complete close frame precedes the cut", c.Entry, err)
+	}
+	if err == nil {
+		return fmt.Errorf("%s reported success although the stream ends at offset %d", c.Entry, c.Off)
+	}
+	k, where := c.locate()
+	if err == io.EOF && where == "payload" && c.finalDataFrame(k) {
+		// The cut message is being discarded (unwanted type) and its last frame is cut:
+		// Discard() does not report it and the next header read sees a clean EOF. Left open (see DESIGN.md §4.16).
+		var first byte
+		for i := k; i >= 0; i-- {
+			if !ref.IsControl(c.Frames[i].H.Op) && c.Frames[i].H.Op != ref.OpCont {
+				first = c.Frames[i].H.Op
+				break
+			}
+		}
+		if ws.OpCode(first) != want {
+			return c.checkReplies(rec)
+		}
+	}
+	if e2 := c.checkFinalErr(err, c.Entry); e2 != nil {
+		return e2
+	}
+	return c.checkReplies(rec)
+}
+
+// runReaderDiscard: every message is discarded right after NextFrame. When the
+// stream ends while a fragmented message is open, Discard must report an error
+// that is not a clean end of stream.
+func (c *cutCase) runReaderDiscard() error {
+	src := c.src()
+	rd := &wsutil.Reader{Source: src, State: c.State, CheckUTF8: true}
+	for _, e := range ref.Events(c.Frames) {
+		if e.Kind == "ctl" && e.Intermediate {
+			continue
+		}
+		whole := c.end[e.At] <= c.Off
+		_, err := rd.NextFrame()
+		if err != nil {
+			if whole {
+				return fmt.Errorf("NextFrame failed (%v) although %v is completely present", err, e)
+			}
+			return c.checkFinalErr(err, "Reader.NextFrame")
+		}
+		derr := rd.Discard()
+		if whole {
+			if derr != nil {
+				return fmt.Errorf("Discard failed (%v) although %v is completely present", derr, e)
+			}
+			continue
+		}
+		k, where := c.locate()
+		if where == "payload" && c.finalDataFrame(k) || (where == "payload" && ref.IsControl(c.Frames[k].H.Op) && !ref.FragmentedBefore(c.Frames, k)) {
+			return nil // cut inside the last frame of the message being discarded: Discard's own result is left open
+		}
+		if derr == nil || derr == io.EOF {
+			return fmt.Errorf("Discard returned %v although the stream ends at %d inside the open fragmented message %v (cut in the %s of frame %d)", derr, c.Off, e, where, k)
+		}
+		return nil
+	}
+	_, err := rd.NextFrame()
+	return c.checkFinalErr(err, "Reader.NextFrame")
+}
+
 // ---------------------------------------------------------------------------
 // ReadMessage
 
@@ -410,6 +516,12 @@ func (c *cutCase) run() error {
 		return c.runReaderWithHandler()
 	case "ReadData":
 		return c.runReadData()
+	case "ReadText":
+		return c.runReadDataFiltered(ws.OpText)
+	case "ReadBinary":
+		return c.runReadDataFiltered(ws.OpBinary)
+	case "Reader+Discard":
+		return c.runReaderDiscard()
 	case "ReadMessage":
 		return c.runReadMessage()
 	case "ReadFrame":
@@ -418,7 +530,7 @@ func (c *cutCase) run() error {
 	return c.runReadHeader()
 }
 
-var readerEntries = []string{"Reader", "Reader+ControlFrameHandler", "ReadData", "ReadMessage", "ReadFrame", "ReadHeader"}
+var readerEntries = []string{"Reader", "Reader+Discard", "Reader+ControlFrameHandler", "ReadData", "ReadText", "ReadBinary", "ReadMessage", "ReadFrame", "ReadHeader"}
 
 // sweep runs every cut offset x fault kind x entry point over one conversation.
 // It returns the first failing case.
@@ -430,7 +542,7 @@ func sweep(frames []ref.Frame, state ws.State, chunkings [][]int, offsets func(c
 		for _, fault := range []error{io.EOF, tx.ErrInjected} {
 			for ci, chunks := range chunkings {
 				for _, entry := range readerEntries {
-					if state == 0 && (entry == "ReadData" || entry == "Reader+ControlFrameHandler") {
+					if state == 0 && (entry == "ReadData" || entry == "ReadText" || entry == "ReadBinary" || entry == "Reader+ControlFrameHandler") {
 						continue // replying needs a side
 					}
 					c := base
@@ -554,7 +666,7 @@ func TestReaderCutsSmallScope(t *testing.T) {
 		}
 	})
 	hx.EvalN(int(total))
-	hx.Part(fmt.Sprintf("reader: all valid sequences of length<=%d over the 24-letter alphabet x 2 sides x every cut offset x {EOF, error} x chunk{all,1} x 6 entry points", depth), total, true)
+	hx.Part(fmt.Sprintf("reader: all valid sequences of length<=%d over the 24-letter alphabet x 2 sides x every cut offset x {EOF, error} x chunk{all,1} x 9 entry points", depth), total, true)
 }
 
 func min(a, b int) int {
